@@ -299,6 +299,13 @@ EXPRS = {
 	"(int promoted to float) + 1": lambda: _promoted([1, 2], 0.5) + 1,
 	"(int promoted to float) // 1": lambda: _promoted([1, 2], 0.5) // 1,
 	"(date promoted to datetime) - timedelta": lambda: _promoted([date(2020, 1, 1), date(2020, 1, 2)], datetime(2020, 1, 1, 5)) - timedelta(hours=1),
+	"dates + days with a gap": lambda: Vector([date(2020, 1, 1), date(2020, 1, 2), date(2020, 1, 3)]) + Vector([1, None, 3]),
+	"table.date + table.days with a gap": lambda: (lambda t: t["d"] + t["k"])(Table({"d": [date(2020, 1, 1), date(2020, 1, 2)], "k": [None, 2]})),
+	"(dates + days with a gap) + 1": lambda: (Vector([date(2020, 1, 1), date(2020, 1, 2)]) + Vector([None, 2])) + 1,
+	"nullable dates + days": lambda: Vector([date(2020, 1, 1), None]) + Vector([1, 2]),
+	"ints + ints with a gap": lambda: Vector([1, 2, 3]) + Vector([1, None, 3]),
+	"ints + floats with a gap": lambda: Vector([1, 2, 3]) * Vector([1.5, None, 3.5]),
+	"str predicates over a gap": lambda: Table([Vector(["ab", None, "Cd"]).startswith("a"), Vector(["ab", None, "Cd"]).isalpha(), Vector(["ab", None]).endswith("b")]),
 	"Vector(iter([None, 1, 2]))": lambda: Vector(iter([None, 1, 2])),
 	"Vector(x for x in [None, 1.5])": lambda: Vector(x for x in [None, 1.5]),
 	"Vector(map(..))": lambda: Vector(map(lambda x: x, [None, None, "a"])),
@@ -368,6 +375,20 @@ def run_widen_only(chk, spec):
 	elif op == "setitem-slice-nullable-vector":
 		src = _wider_than_needed("was-none", news) if all(x is not None for x in news) else Vector(list(news))
 		o = call(lambda: (v.__setitem__(slice(0, len(news)), src), v)[1])
+	elif op == "lshift-inplace-promoted-vector":
+		# the right operand became what it is by in-place writes (its class still says what it was built as)
+		placeholders = {int: 7, float: 7, complex: 7.5, str: "z", bool: True, date: date(2000, 1, 1), datetime: date(2000, 1, 1)}
+		first = next((x for x in news if x is not None), None)
+		ph = placeholders.get(type(first))
+		if ph is None:
+			chk.skip("widen-only-no-placeholder")
+			return
+		w = Vector([ph] * len(news))
+		wr = call(w.__setitem__, slice(None), list(news))
+		if not wr.ok or not M.eq_list(list(w._underlying), list(news)):
+			chk.skip("widen-only-inplace-build-refused")
+			return
+		o = call(lambda: v << w)
 	else:
 		o = call(lambda: (v.__setitem__(slice(0, len(news)), list(news)), v)[1])
 	chk.judged("result-typing", ("widen-only", how, op, fmt(s0), tuple(sorted({cls_name(x) for x in news}))))
@@ -582,7 +603,7 @@ def run(chk):
 		for how in ("plain", "to_object", "was-none", "was-float", "slice-of-nullable"):
 			if how == "was-float" and not isinstance(vals[0], int) or isinstance(vals[0], bool) and how == "was-float":
 				continue
-			for op in ("lshift-list", "lshift-vector", "lshift-scalar", "setitem-slice-list", "setitem-slice-vector", "setitem-slice-nullable-vector"):
+			for op in ("lshift-list", "lshift-vector", "lshift-scalar", "setitem-slice-list", "setitem-slice-vector", "setitem-slice-nullable-vector", "lshift-inplace-promoted-vector"):
 				for news in news_list:
 					chk.case("widen_only", {"values": vals, "how": how, "op": op, "new": news}, "widen-only")
 	# CSV columns in which a float equals an int seen earlier (2 and 2.0, 0 and -0.0, 1000 and 1e3): the kinds that occur decide, not the distinct values
